@@ -21,7 +21,9 @@ PROFILES: Dict[str, gen.Profile] = {
     "negative": gen.Profile(**_BASE),
     "quantifiers": gen.Profile(**_BASE),
     "usertype_fluents": gen.Profile(**_BASE),
-    "bounded_types": gen.Profile(**_BASE),
+    # bound-stressing: almost every numeric fluent is bounded, often with 0 as an endpoint, few
+    # preconditions, many self-updates  f := f +/- c  that step over the bounds
+    "bounded_types": gen.Profile(fluent_kinds=["int", "int", "real", "bool"], bounded_p=0.9, zero_bound_p=0.4, self_update_p=0.5, max_pre=1, max_arity=1, **_BASE),
     "state_invariants": gen.Profile(**_BASE),
     # the trajectory remover only regresses through and / or / not over Boolean fluents (see the
     # known finding on equalities / implications), so most draws stay in that fragment
@@ -53,6 +55,7 @@ def compiler_class(name):
 
 
 NAMES = list(PROFILES)
+WEIGHTS = {"trajectory": 4, "bounded_types": 2, "cond_effects": 2, "negative": 2, "grounder": 2}
 PIPELINES = [
     ["quantifiers", "disjunctive"],
     ["cond_effects", "negative"],
@@ -68,11 +71,10 @@ def cases(names=None, with_pipelines=True, name_pool=None):
 
     @st.composite
     def strat(draw):
-        k = draw(st.integers(0, len(names) + (len(PIPELINES) if with_pipelines else 0) - 1))
-        if k < len(names):
-            comp = [names[k]]
-        else:
-            comp = PIPELINES[k - len(names)]
+        # single compilers carry WEIGHTS (the trajectory remover has by far the largest rewrite and
+        # the rarest trigger shapes), pipelines weight 1
+        slots = [[n] for n in names for _ in range(WEIGHTS.get(n, 1))] + (PIPELINES if with_pipelines else [])
+        comp = slots[draw(st.integers(0, len(slots) - 1))]
         # the profile of the first stage restricted by the later stages' needs
         prof = PROFILES[comp[0]]
         if len(comp) > 1:
